@@ -73,6 +73,7 @@ class QueueingRDMController: public RDMControllerInterface {
     virtual bool CheckForBlockingCondition();
     void MaybeSendRDMRequest();
     void DispatchNextRequest();
+    void ContinueOverflowSequence();
 
     void HandleRDMResponse(RDMReply *reply);
     void RunCallback(RDMReply *reply);
